@@ -824,3 +824,35 @@ def k8(prog, tier="quick"):
         if k in bad:
             findings.append({"key": "K8:" + k, "where": "dwgrep/" + main["l"], "msg": bad[k], "detail": None})
     return inst, findings
+
+
+def k9(prog, driver_only=True):
+    """The query can come from a pipe (`-f -` with stdin a pipe or terminal, a FIFO, process substitution).  Input streams are therefore
+    only read sequentially: no function of the driver (lambdas included) calls seekg / tellg / unget / putback / sync on a std::istream
+    or through its stream buffer (pubseekoff / pubseekpos).  On a non-seekable stream those fail and - with the usual `len > 0 ? len : 0`
+    guard - turn the script into the empty query, which compiles and `matches`."""
+    inst, findings = [], []
+    BAD = ("seekg", "tellg", "unget", "putback", "pubseekoff", "pubseekpos", "pubsync")
+    n_stream_fns = 0
+    for f in sorted(prog.funcs.values(), key=lambda f: f["fid"]):
+        if f.get("body") is None:
+            continue
+        rel = prog.rel(f.get("file", ""))
+        if driver_only and not rel.startswith("dwgrep/"):
+            continue
+        uses = [c for c in walk(f["body"]) if c.get("k") == "call" and c.get("ismethod") and "basic_i" in (c.get("cls") or "") or
+                (c.get("k") == "call" and "basic_streambuf" in (c.get("cls") or "")) or
+                (c.get("k") == "ctor" and "istreambuf_iterator" in (c.get("c") or ""))]
+        if not uses:
+            continue
+        n_stream_fns += 1
+        key = "K9:" + f["q"]
+        bad = [c for c in uses if c.get("fn") in BAD]
+        inst.append((key, {"stream_operations": len(uses)}))
+        if bad:
+            findings.append({"key": key, "where": str(bad[0].get("l") or f["l"]),
+                             "msg": "%s calls %s on an input stream: the query may be read from a pipe (`-f -`), where positioning fails and the script is silently replaced by "
+                                    "the empty query (exit status 0, `-c` prints 1, compile errors vanish)" % (f["q"], bad[0].get("fn")), "detail": None})
+    if n_stream_fns < 1:
+        raise Broken("no function of the driver reads an input stream (anchor for -f vanished)")
+    return inst, findings
